@@ -175,7 +175,7 @@ def _cov(ck: Checker, prog: Program, cls, rule: str, weighted: bool):
                 continue
             tf = (lambda x: x) if canon == "normal" else sp.log
             want = F("cov")(tf(FR), tf(AM), *tail)
-            if val is None or not equal(val, want):
+            if val is None or not equal(S.gather_normal_form(val), S.gather_normal_form(want)):
                 problems.append(f"for '{key}' the covariance is {val}; expected {want}")
         if not chosen:
             problems.append(f"no path for the name '{key}'")
